@@ -721,6 +721,12 @@ class Exec:
       else:
         raise Unsupported(f"store with {len(idx)} indices into {ref.ndim}-d array {ref.name}")
     g = self.guard_now(fr)
+    if isinstance(val, Opaque) and val.what in ("tile_elem", "tile"):
+      # value reduced out of a tile: not modelled, unconstrained
+      if isinstance(ref.elem, TVec) and not comp:
+        val = Vec(ref.elem.shape, [self.fresh("tile_val", ref.elem.kind) for _ in range(_prod(ref.elem.shape))], ref.elem.kind)
+      else:
+        val = self.fresh("tile_val", ref.elem.kind)
     self.st.log.append(Access(kind, ref, tuple(idx), g, lineno, value=val, comp=tuple(comp), bound=tuple(self.st.bound), op=op))
     if g is False:
       return
@@ -983,6 +989,8 @@ class Exec:
     v = self.eval(e.operand, fr)
     if isinstance(v, Opaque) and v.what == "tile":
       return v
+    if isinstance(v, Opaque) and v.what == "tile_elem":
+      return self.fresh("tile_val", "float")
     if isinstance(e.op, ast.Not):
       b = tobool(v)
       return znot(b)
@@ -1022,6 +1030,10 @@ class Exec:
     res = []
     for op, right_e in zip(e.ops, e.comparators):
       right = self.eval(right_e, fr)
+      if (isinstance(left, Opaque) and left.what == "tile_elem") or (isinstance(right, Opaque) and right.what == "tile_elem"):
+        res.append(self.fresh("tile_cmp", "bool"))
+        left = right
+        continue
       if isinstance(op, (ast.In, ast.NotIn)):
         if isinstance(right, (tuple, list)):
           r = zor(*[self.ar.compare(ast.Eq(), left, x) for x in right])
@@ -1060,6 +1072,12 @@ class Exec:
   def binop(self, op, a, b):
     if (isinstance(a, Opaque) and a.what == "tile") or (isinstance(b, Opaque) and b.what == "tile"):
       return Opaque("tile")
+    if (isinstance(a, Opaque) and a.what == "tile_elem") or (isinstance(b, Opaque) and b.what == "tile_elem"):
+      # element of a tile: value not modelled (scalar or vector, unknown) -> unconstrained result
+      o = b if isinstance(a, Opaque) else a
+      if isinstance(o, Vec):
+        return Vec(o.shape, [self.fresh("tile_val", "float") for _ in o.comps], "float")
+      return self.fresh("tile_val", "float")
     if isinstance(a, Vec) or isinstance(b, Vec):
       return self.vec_binop(op, a, b)
     if isinstance(a, tuple) and isinstance(b, tuple) and isinstance(op, ast.Add):
@@ -1152,7 +1170,9 @@ class Exec:
     if isinstance(base, (ArrRef, RowView)):
       return self.arr_read(base, idx, fr, e.lineno)
     if isinstance(base, Opaque) and base.what == "tile":
-      return self.fresh("tile_elem", "float")
+      return Opaque("tile_elem")
+    if isinstance(base, Opaque) and base.what == "tile_elem":
+      return self.fresh("tile_val", "float")
     if isinstance(base, TypeCtor) or isinstance(base, Opaque):
       # wp.array[float] in annotations handled by parse_type; here: unsupported
       raise Unsupported("subscript of type")
@@ -1319,6 +1339,8 @@ class Exec:
   def cast(self, v, kind):
     if isinstance(v, enum.Enum):
       v = int(v)
+    if isinstance(v, Opaque) and v.what == "tile_elem":
+      return self.fresh("tile_val", kind)
     if isinstance(v, Vec):
       return Vec(v.shape, [self.cast(c, kind) for c in v.comps], kind, v.tag)
     k = kind_of(v)
